@@ -44,6 +44,11 @@ CHECKS = {
    text="Seeded texts over ASCII, 1-4 byte codepoints and codepoints whose lower-casing changes length, with 0-5 known selections and milestone intervals 0/3/5/100; find_text, find_text_nocase, find_text_sequence, find_text_regex (1-4 expressions, capture groups, overlap on/off, precompiled set), split_text, trim_text(_with) on ResultItem<TextResource>, bound and unbound ResultTextSelection and ResultItem<TextSelection>, the store-wide searches over 2 resources, and segmentation/segmentation_in_range; results are compared with the reference as sequences of (begin, end, text), must carry the text really at those offsets, stay inside the searched range, and split/segmentation must partition it. Held on the inputs observed.",
    note="Trusted: the reference functions in harness/src/c07.rs (std and regex crate). Not judged (undocumented): case-insensitive matches cutting through the lower-case expansion of one codepoint, sequence searches where greedy and backtracking readings differ, the position of an empty trim result.",
    ref="5/C07"),
+ "C09": dict(
+   technique="runtime monitoring: totality oracle (catch_unwind + stall watchdog) over grammar-generated, mutated and token-soup strings fed to Query::parse and TryFrom<&str>; fixpoint oracle (structural comparison through the public accessors, equality of the second print, result equality on three stores) over parsed and programmatically built queries, with delta-debugging of violating queries to name the construct at fault",
+   text="Well-formed STAMQL from a grammar (SELECT/ADD/DELETE, every constraint keyword, qualifier, operator and literal type, unions, limits, attributes, two levels of sub-queries), 12 kinds of mutation of it (truncation at every character boundary, token deletion/duplication/replacement, number-like literals of any size and sign, unicode and multi-byte whitespace, quote/backslash soup, brace/bar/bracket insertion) and token soup never make the parser panic or hang; every accepted or built printable query prints to text that parses to the same structure, prints identically again and evaluates to the same rows. Held on what was observed; two root causes for built queries are recorded as findings.",
+   note="Trusted: structure() in harness/src/c09.rs (Debug rendering of Constraint/Assignment leaves). Well-formed input that the parser rejects is counted, not judged. Handle-collection constraints are compared by meaning on the store they belong to, as sorted rows.",
+   ref="5/C09"),
  "C10": dict(
    technique="runtime monitoring: exactly-once oracle over the event log (shadow model predicts which data handle every request must map to), dedup invariants on the live sets, index-vs-scan differential for every data search route, and an independent reference implementation of the documented DataOperator semantics on a value x operator cross product",
    text="Seeded histories of data insertions through datasets, insert_data and annotations (with/without ids, repeated key/value pairs) and removals of data and keys; after every operation the returned handles are compared with the model's exactly-once prediction, the live sets are scanned for duplicate id-less (key,value) items and duplicate keys, and key.data()/find_data/test_data/data_by_value are compared with a full scan; DataValue::test is compared with a reference written from the doc comments over 25 values x ~100 operators incl. nested Not/And/Or. Held on what was observed.",
